@@ -15,8 +15,13 @@ RULE = ("every entry-point kind of the harness x adversarial inputs: byte soups 
         "skip_unquoted_value / read_bytes); typed deserializer targets named after the input's own words over all paths (slice, tape, objreader, "
         "reader caps 1..64, freader, fslice); writer call histories with adversarial payloads and any indent configuration; public functions no other "
         "kind calls; the side condition of the write_tape no-crash theorem evaluated on every real tape; DOM / JSON model correspondence on every "
-        "node of the accepted adversarial inputs")
-TRUSTED = ["real stack size, allocator behaviour and pointer provenance are outside the Gallina models (DESIGN.md section 10)"]
+        "node of the accepted adversarial inputs. "
+        "Wave 5 (w_btcap): stream tape_cap_model -- both binary tape parsers on a fresh token vector of a chosen capacity c0 placed 0..3 slots around "
+        "the token count at the array->mixed `=`, ghost clusters, mixed_insert1/2, container close; output = tape AND capacity of the vector "
+        "afterwards, compared with the capacity model (BinTapeCap.v, operation order generated from tape.rs / copyless.rs); oracle len <= capacity")
+TRUSTED = ["real stack size, allocator behaviour and pointer provenance are outside the Gallina models (DESIGN.md section 10)",
+           "w_btcap: Vec::reserve(n) leaves capacity >= len + n and Vec::with_capacity(n) has capacity n (the theorems of Props/C05_tapecap.v hold for every growth policy; "
+           "the exact capacities of RawVec::grow_amortized are only observed by stream tape_cap_model)"]
 ASSUMPTIONS = ["documented panics (Date::from_ymd, add_days overflow, DateHour::from_ymdh) are API contracts, not findings"]
 
 CRASH = ("PANIC", "ABORT", "HANG")
